@@ -59,7 +59,10 @@ RULE = ("type strings: grammar-generated C types (specifier combinations, pointe
         "bit-fields and partial '...', enums with constant expressions, functions, globals, #define lines, extern "
         "\"Python\", comments, pragmas, then byte-level mutations; #define values over the alphabet of _r_int_literal and "
         "near misses; constant-expression trees over all operators, literal forms (incl. hex floats, suffixes, chars) and "
-        "zero/negative/huge operands.  non-trivial = the case reaches an error or a non-default branch; distinct = "
+        "zero/negative/huge operands; deterministic families in every run: ~27 valid cdef texts (extern \"Python\" in all "
+        "spellings, #define/continuations, line directives, '...' forms, calling conventions, bit-fields, static const, "
+        "comments, packed/pack/embedding_api options) and ~28 type strings, each cut at every token boundary x 7 tails "
+        "(nothing, blanks, comments, backslash-newline) and with each token deleted.  non-trivial = the case reaches an error or a non-default branch; distinct = "
         "(kind, input)")
 ASSUMPTIONS = ["strings shorter than 2^31 bytes (int counters of number_of_commas not modelled)",
                "glibc memcmp/strtoull read no more than their contract allows (the guard page and ASan check the build used)",
@@ -417,13 +420,18 @@ def site_of(tb):
     return s or "backend"
 
 
-def run_inline(api, text):
-    """-> (exception type name or None, site)"""
+def run_inline(api, text, options=None):
+    """-> (exception type name or None, site).  api: 'cdef' | 'typeof'; options (cdef only):
+    {'packed': True} | {'pack': n} | {'embedding': True} (ffi.embedding_api, i.e. dllexport)."""
     import cffi
     ffi = cffi.FFI()
     try:
         if api == "cdef":
-            ffi.cdef(text)
+            opts = dict(options or {})
+            if opts.pop("embedding", False):
+                ffi.embedding_api(text, **opts)
+            else:
+                ffi.cdef(text, **opts)
         else:
             ffi.typeof(text)
         return None, None
@@ -435,17 +443,21 @@ def run_inline(api, text):
         return type(e).__name__, site_of(e.__traceback__)
 
 
-def check_inline(ctx, api, text, origin):
-    exc, site = run_inline(api, text)
+def check_inline(ctx, api, text, origin, options=None, family=None):
+    exc, site = run_inline(api, text, options)
     case = {"part": "X", "api": api, "text": text, "exc": exc, "site": site, "origin": origin}
+    if options:
+        case["options"] = options
     key = None
     if exc is not None:
         key = (api, exc, site, text)
     ctx.case(key, sample=case if exc else None)
     ctx.count("X:%s:%s" % (api, exc or "ok"))
+    if family:
+        ctx.count("XF:%s:%s:%s" % (api, family, exc or "ok"))
     if exc is not None and exc not in ALLOWED_INLINE:
-        r = ctx.fail(case, "%s(%r) raised %s (innermost cffi frame: %s); only %s may escape"
-                     % (api, text[:200], exc, site, "/".join(ALLOWED_INLINE)))
+        r = ctx.fail(case, "%s(%r%s) raised %s (innermost cffi frame: %s); only %s may escape"
+                     % (api, text[:200], (", %r" % (options,)) if options else "", exc, site, "/".join(ALLOWED_INLINE)))
         ctx.count("X:%s:escape:%s@%s:%s" % (api, exc, site, r))
     return exc, site
 
@@ -668,6 +680,8 @@ def type_string_stream(rng, n):
              "int" + "(" * 300, "int(*)" + "(" * 200, "," * 600, ")" * 600, "int(" + ")" * 10, "int((,),(,,))", "int(a,(b,c),d)",
              "int\x00garbage(", "\x00", "int \x00", "é", "int é", "\udc80", "int\ud800", "€[", "int[١]", "i̇nt",
              "\x7f", "int\x7f", "\x01", "int\x1f*", "int\xa0*"]
+    for t in FAMILY_TYPEOF:
+        fixed += [v for _, v in family_variants(t)]
     for b in range(1, 256):
         ch = chr(b)
         fixed += ["int" + ch, ch + "x", "0" + ch, ".." + ch, "int[1" + ch, "(" + ch]
@@ -1140,8 +1154,86 @@ X_FIXED_TYPEOF = ["", " ", "\n", "int[-1]", "FILE[]", "int[%s]" % HUGE, "char(*)
                   "static int", "inline int", "int f(void) { return 0; }", "int = 5", "int x = 5", "int :3", "int x:3"]
 
 
+# Deterministic families (every run, every seed): valid texts covering every construct the preprocessor and the
+# parser special-case; each is cut at every token boundary (followed by each of TRUNC_TAILS) and has each of its
+# tokens deleted in turn.  (text, cdef options)
+FAMILY_CDEF = [
+    ('extern "Python" int cb1(int, char *);', None),
+    ('extern "Python+C" int cb2(int);', None),
+    ('extern "C+Python" void cb3(void);', None),
+    ('extern "Python" { int cb4(int); void cb5(void); }', None),
+    ('extern "Python+C" { int cb6(int); }\nint after(void);', None),
+    ('extern "C+Python" {\n  long cb7(long);\n}', None),
+    ('int before(void); extern  "Python"   int cb8(void);', None),
+    ('#define A 5\n#define B 0x10\n#define C \\\n  7\n#define D ...\n#define E -010u\nint arr[A];', None),
+    ('# 1 "file.h"\nint x1;\n# 7 "other.h"\nint x2;\n#line 9\nint x3;', None),
+    ('struct s1 { int a; ...; };', None),
+    ('struct s2 { int a[...]; char b; };', None),
+    ('enum e1 { E1A, E1B = 3, ... };', None),
+    ('enum e2 { E2A = ..., E2B };', None),
+    ('typedef int... myint_t; typedef float... myflt_t; typedef ... opaque_t;', None),
+    ('typedef struct { ...; } anon_t; typedef ... *ptr_t;', None),
+    ('int __stdcall f1(int); int (__stdcall *fp1)(int); int WINAPI f2(void); int __cdecl f3(void); '
+     'void (WINAPI *fp2)(int);', None),
+    ('struct bf { int a:3; unsigned b:1; int :0; signed char c:7; };', None),
+    ('static const int SC1 = 42; static const int SC2 = -0x10; static const char SC3; static const int SC4;', None),
+    ('/* c1 */ int x; // c2\nint y; /* multi\nline */ int z;', None),
+    ('int g1[...]; extern int g2[]; extern int g3[4];', None),
+    ('typedef int (*fn_t)(int, ...); int vf(int, ...); void (*signal2(int, void (*)(int)))(int);', None),
+    ('struct p1 { char a; int b; }; union u1 { int x; float y; };', {"packed": True}),
+    ('struct p2 { char a; long long b; short c; };', {"pack": 2}),
+    ('int api1(int); extern int api_var; typedef struct { int v; } api_t; api_t *api2(void);', {"embedding": True}),
+    ('typedef _Bool b_t; typedef long double ld_t; typedef float _Complex fc_t; typedef wchar_t w_t; '
+     'typedef uint64_t u64; FILE *fopen2(const char *, const char *);', None),
+    ("enum e3 { X1 = 1 << 3, X2 = (5 + 2) * 3, X3 = 'a', X4 = -1, X5 = 7 / 2, X6 = 7 % 3, X7 = 9 >> 1 }; int aa[X1];", None),
+    ('#pragma pack(1)\nint q;\nchar * const * cpp; int * volatile vp; const char *const names[3];', None),
+]
+FAMILY_TYPEOF = ["int", "unsigned long long", "const char *", "int[5]", "int[]", "int[0x10]", "int(*)(int, char *)",
+                 "int(*)(void)", "void(*)(int, ...)", "int (__stdcall *)(int)", "struct _IO_FILE *", "FILE *",
+                 "int(*(*)(void))[3]", "int *[4]", "int (*)[4]", "char **const *", "long double", "float _Complex",
+                 "uint32_t[2][3]", "wchar_t *", "void *(*)(void *, size_t)", "unsigned char[8]", "const volatile int *",
+                 "_Bool", "int(*)(int(*)(int))", "ssize_t", "int[1 << 3]", "char[(2 + 3) * 2]"]
+TRUNC_TAILS = ["", " ", "\n", "\t\n ", "/* c */", "// c", "\\\n"]
+_R_TOKEN = re.compile(r'"[^"\n]*"|\'(?:\\.|[^\'\\\n])*\'|/\*.*?\*/|//[^\n]*|\.\.\.|<<|>>|\\\n|\w+|\S', re.S)
+
+
+def family_variants(text):
+    """-> [(family, variant text)]: every prefix ending at a token boundary x TRUNC_TAILS; one token deleted."""
+    spans = [m.span() for m in _R_TOKEN.finditer(text)]
+    out = []
+    cuts = [0] + [e for _, e in spans]
+    for c in cuts:
+        for t in TRUNC_TAILS:
+            out.append(("trunc", text[:c] + t))
+    for a, b in spans:
+        out.append(("delete", text[:a] + text[b:]))
+    return out
+
+
+def part_families(ctx):
+    for text, options in FAMILY_CDEF:
+        exc, _ = check_inline(ctx, "cdef", text, "family-base", options, family="base")
+        if exc is not None:
+            raise InfraError("family base text is not accepted by cdef (%s): %r" % (exc, text))
+        for fam, v in family_variants(text):
+            if not shifts_safe(v):
+                ctx.count("XF:cdef:%s:skipped(unsafe-shift)" % fam)
+                continue
+            check_inline(ctx, "cdef", v, "family-" + fam, options, family=fam)
+    for text in FAMILY_TYPEOF:
+        exc, _ = check_inline(ctx, "typeof", text, "family-base", family="base")
+        if exc is not None:
+            raise InfraError("family base type string is not accepted by typeof (%s): %r" % (exc, text))
+        for fam, v in family_variants(text):
+            if not shifts_safe(v):
+                ctx.count("XF:typeof:%s:skipped(unsafe-shift)" % fam)
+                continue
+            check_inline(ctx, "typeof", v, "family-" + fam, family=fam)
+
+
 def part_x(ctx, n_cdef, n_typeof):
     rng = ctx.rng
+    part_families(ctx)
     for t in X_FIXED_CDEF:
         check_inline(ctx, "cdef", t, "fixed")
     for t in X_FIXED_TYPEOF:
@@ -1270,7 +1362,7 @@ def _rerun(ctx, case):
             g, crashed, how = run_guard(ctx, [as_c_string(case["text"]).hex()])
             ok = crashed is None and (g[0]["res"] >= 0 or g[0]["msg"] == "undefined type name")
         return not ok, "raised %s" % exc
-    exc, site = run_inline(case["api"], case["text"])
+    exc, site = run_inline(case["api"], case["text"], case.get("options"))
     return exc is not None and exc not in ALLOWED_INLINE, "%s raised %s at %s" % (case["api"], exc, site)
 
 
